@@ -40,13 +40,22 @@ def answer (line : String) : String :=
     else if (toks.headD "").startsWith "kzg" then kzgAnswer (toks.filter (· ≠ ""))
     else "bad-request"
 
-partial def loop (h : IO.FS.Stream) (out : IO.FS.Stream) : IO Unit := do
+abbrev VCache := Option (String × Except VDecErr VerifierM)
+
+partial def loop (h : IO.FS.Stream) (out : IO.FS.Stream) (cache : VCache) : IO Unit := do
   let line ← h.getLine
   if line.isEmpty then return ()
-  out.putStrLn (answer line)
-  loop h out
+  let t := line.trimAscii.toString
+  let toks := (t.splitOn " ").filter (· ≠ "")
+  if ["verify", "vroundtrip", "proofdec"].contains (toks.headD "") then
+    let (ans, cache) := verifyAnswer cache toks
+    out.putStrLn ans
+    loop h out cache
+  else
+    out.putStrLn (answer line)
+    loop h out cache
 
 def main : IO Unit := do
   let out ← IO.getStdout
-  loop (← IO.getStdin) out
+  loop (← IO.getStdin) out none
   out.flush
